@@ -104,11 +104,20 @@ func (d *Dechunker) chunk(b []byte) (n int, done *Msg, cid uint32, err error) {
 		cid = 64 + uint32(b[1]) + 256*uint32(b[2])
 		n = 3
 	}
-	st := d.cs[cid]
-	if st == nil {
-		st = &csState{}
-		d.cs[cid] = st
+	cur := d.cs[cid]
+	if cur == nil {
+		cur = &csState{}
+		d.cs[cid] = cur
 	}
+	// work on a copy and commit it only when the whole chunk is there, so that a short read can
+	// be retried with more bytes (ErrShort leaves the state untouched)
+	work := *cur
+	st := &work
+	defer func() {
+		if err == nil {
+			*cur = work
+		}
+	}()
 	hs := []int{11, 7, 3, 0}[f]
 	if len(b) < n+hs {
 		return 0, nil, cid, ErrShort
